@@ -502,7 +502,11 @@ func (g *generator) shouldCreateSubMethod(ctx *builder.MethodContext, source, ta
 
 	createSubMethod := false
 
-	if ctx.HasSeen(source) {
+	if ctx.Conf.SkipCopySameType && source.String == target.String {
+		// the value is assigned as it is, also when the type occurs
+		// more than once in this method.
+		createSubMethod = false
+	} else if ctx.HasSeen(source) {
 		g.lookup.ByID(ctx.IndexID).Dirty = true
 		createSubMethod = true
 	} else if !isCurrentPointerStructMethod {
@@ -515,9 +519,6 @@ func (g *generator) shouldCreateSubMethod(ctx *builder.MethodContext, source, ta
 			createSubMethod = true
 		case source.Enum(&ctx.Conf.Enum).OK && target.Enum(&ctx.Conf.Enum).OK:
 			createSubMethod = true
-		}
-		if ctx.Conf.SkipCopySameType && source.String == target.String {
-			createSubMethod = false
 		}
 	}
 	ctx.MarkSeen(source)
